@@ -6,6 +6,7 @@ Helper lemmas are in this file's first section only because they are short; the 
 statements are the `theorem C17.*` at the end.
 -/
 import Uniflow.Model.Group
+import Uniflow.Generated.Decoders
 
 namespace Uniflow.Group
 
@@ -382,3 +383,35 @@ theorem C17.assembler_pure {σ α : Type} (ty : σ → Nat) (cs : List (Compiler
   · rfl
   · simp only [Memo.empty, Option.getD_none]
     exact C17.decode_eq_cold ty _ _ s (hm τ)
+
+/-! ## The real registry's leaf decoders (regenerated shape table)
+
+`Coherent` is a hypothesis of the purity theorems. For the real codec registry its first
+clause ("a decoder's *unsupported type* verdict depends on the source's dynamic type only") is
+backed structurally by `Generated/Decoders.lean`, regenerated from pkg/types on every run: every
+leaf decoder has the shape `if s, ok := source.(K); ok { … } return ErrUnsupportedType` (or a
+type switch) and does not mention `ErrUnsupportedType` inside the guarded branch. The decoders
+that do not have that shape are the reviewed ones below; for them (and for everything else)
+the cold/warm/concurrent oracle of the harness is the evidence. -/
+
+/-- Constructors whose decoders are not of the simple guarded shape, with the reason. -/
+def C17.reviewedDecoderCtors : List String :=
+  [ "newPointerDecoder",   -- nil target / pointer-to-pointer: delegates to the element decoder
+    "newShortcutDecoder",  -- Value → Value: verdict by convertibility of the source's type
+    "newJSONDecoder",      -- json.Unmarshaler targets: delegates
+    "newMapDecoder",       -- composite: struct / map targets, verdict can depend on the elements
+    "newSliceDecoder",     -- composite: slice / array targets
+    "newTimeDecoder",      -- if/else-if chain of type assertions, `else` ⇒ ErrUnsupportedType
+    "newDurationDecoder" ] -- same chain shape
+
+open Uniflow.Generated.Decoders in
+theorem C17.leaf_decoders_type_guarded :
+    shapes.all (fun d =>
+      (d.guard != "none" && !d.unsupportedInside && !d.delegates && d.tailUnsupported) ||
+      C17.reviewedDecoderCtors.contains d.fn) = true := by decide
+
+open Uniflow.Generated.Decoders in
+/-- The table is not empty and most of it is of the guarded shape (non-vacuity). -/
+theorem C17.leaf_decoders_nonvacuous :
+    (shapes.filter (fun d => d.guard != "none" && !d.unsupportedInside && d.tailUnsupported)).length ≥ 40 := by
+  decide
